@@ -181,21 +181,24 @@ def _parse_adds(stmts, kwidth, what):
     return terms
 
 
-def lookup3_paths(repo):
+def lookup3_paths(repo, valgrind=False):
+    """the three paths of hashlittle2 as compiled WITHOUT (default) or WITH -DVALGRIND (byte-exact tail of the 32-bit path)"""
     raw = open(os.path.join(repo, "include", "aws", "common", "private", "lookup3.inl")).read()
     src = strip_c_comments(raw)
     m = re.search(r"static\s+void\s+hashlittle2\s*\(.*?\)\s*\{(.*?)\n\}", src, re.S)
     if not m:
         raise core.GenError("lookup3: hashlittle2 not found")
     body = m.group(1)
-    # CBMC-only blocks carry pragmas only; VALGRIND is not defined in any build of this library: take the #ifndef branch
+    # CBMC-only blocks carry pragmas only; the `#ifndef VALGRIND ... #else ... #endif` is resolved per configuration
     for blk in re.findall(r"#ifdef CBMC(.*?)#endif", body, re.S):
         if any(l.strip() and not l.strip().startswith("#") for l in blk.splitlines()):
             raise core.GenError("lookup3: an `#ifdef CBMC` block inside hashlittle2 carries code")
     body = re.sub(r"#ifdef CBMC.*?#endif", "", body, flags=re.S)
     if len(re.findall(r"#ifndef VALGRIND", body)) != 1:
         raise core.GenError("lookup3: expected one `#ifndef VALGRIND` in hashlittle2")
-    body = re.sub(r"#ifndef VALGRIND(.*?)#else.*?#endif", lambda mm: mm.group(1), body, flags=re.S)
+    if len(re.findall(r"#ifndef VALGRIND.*?#else.*?#endif", body, re.S)) != 1:
+        raise core.GenError("lookup3: `#ifndef VALGRIND ... #else ... #endif` not found in hashlittle2")
+    body = re.sub(r"#ifndef VALGRIND(.*?)#else(.*?)#endif", lambda mm: mm.group(2 if valgrind else 1), body, flags=re.S)
     if "#" in body:
         raise core.GenError("lookup3: unexpected preprocessor directive left in hashlittle2")
     flat = re.sub(r"\s+", "", body)
@@ -206,7 +209,7 @@ def lookup3_paths(repo):
         raise core.GenError("lookup3: hashlittle2 is not `init; if (aligned 4) {..} else if (aligned 2) {..} else {..} final; store` as modelled")
     out = []
     for idx, (txt, bits) in enumerate(zip(mm.groups(), (32, 16, 8))):
-        what = f"hashlittle2 {bits}-bit path"
+        what = f"hashlittle2 {bits}-bit path" + (" (-DVALGRIND)" if valgrind else "")
         width = bits // 8
         pm = re.fullmatch(r"constuint%d_t\*k=\(constuint%d_t\*\)key;while\(length>12\)\{(.*?)mix\(a,b,c\);length-=12;k\+=(\d+);\}"
                           r"(constuint8_t\*k8=\(constuint8_t\*\)k;)?switch\(length\)\{(.*)\}" % (bits, bits), txt)
@@ -297,7 +300,7 @@ _BYTE_TAIL = [[(r, 1, p, _M32, 8 * (p % 4)) for r in range(3) for p in range(4 *
 _BYTE_BLOCK = _BYTE_TAIL[12]
 
 
-def check_paths(paths, consts):
+def check_paths(paths, consts, label=""):
     import random
     rng = random.Random(20240607)
     for bits, (blk, tail) in zip((32, 16, 8), paths):
@@ -307,7 +310,7 @@ def check_paths(paths, consts):
             want = _run_path(key, n, _BYTE_BLOCK, _BYTE_TAIL, consts)
             got = _run_path(key + after, n, blk, tail, consts)
             if got != want:
-                raise core.GenError(f"lookup3: the {bits}-bit-load path of hashlittle2 as written no longer computes the byte-wise "
+                raise core.GenError(f"lookup3: the {bits}-bit-load path of hashlittle2{label} as written no longer computes the byte-wise "
                                     f"function: key={key.hex() or '-'} (length {n}) followed in memory by {after.hex()}: "
                                     f"(pc,pb)=({got[0]:08x},{got[1]:08x}) but byte-wise ({want[0]:08x},{want[1]:08x})")
 
@@ -320,13 +323,17 @@ def regen(ctx=None):
     repo = cbuild.REPO
     mix, fin, basis, sinit, pinit = lookup3_constants(repo)
     paths = lookup3_paths(repo)
-    _write_paths(paths)
+    vpaths = lookup3_paths(repo, valgrind=True)
+    if vpaths[1] != paths[1] or vpaths[2] != paths[2] or vpaths[0][0] != paths[0][0]:
+        raise core.GenError("lookup3: -DVALGRIND changes more than the tail switch of the 32-bit path")
+    _write_paths(paths, vpaths)
     _write_rest(repo, mix, fin, basis, sinit, pinit)
     # last: every generated file is in place (the model driver can still be built) when this raises
     check_paths(paths, (mix, fin, basis))
+    check_paths(vpaths[:1], (mix, fin, basis), " in the -DVALGRIND configuration")
 
 
-def _write_paths(paths):
+def _write_paths(paths, vpaths):
     core.write_if_changed(os.path.join(core.LEAN, "AwsVerif", "Gen", "Lookup3Paths.lean"),
         "/- GENERATED from hashlittle2 in /repo/include/aws/common/private/lookup3.inl by props/c02_gen.py; do not edit.\n"
         "   A term (target, width, offset, mask, shift) stands for `target += ((load of `width` bytes at byte `offset`, little-endian) & mask) << shift`,\n"
@@ -337,6 +344,9 @@ def _write_paths(paths):
                 f"def l3Tail{bits} : List (List (Nat × Nat × Nat × Nat × Nat)) := [\n  " +
                 ",\n  ".join(_lean_terms(t) for t in tail) + "]\n"
                 for bits, (blk, tail) in zip((32, 16, 8), paths)) +
+        "/-- the tail switch of the 32-bit-load path in a -DVALGRIND build (byte-exact, no over-read) -/\n"
+        "def l3Tail32V : List (List (Nat × Nat × Nat × Nat × Nat)) := [\n  " +
+        ",\n  ".join(_lean_terms(t) for t in vpaths[0][1]) + "]\n"
         "end AwsVerif.Gen\n")
 
 
